@@ -470,8 +470,13 @@ def _handle_pth_file(path: Path) -> list[_SP]:
             editable_module = path.parent / f"{line[len('import') :].lstrip()}.py"
             with suppress(UnhandledEditableModuleError):
                 return _handle_editable_module(editable_module)
-        if line and not line.startswith("#") and os.path.exists(line):  # noqa: PTH110
-            directories.append(_SP(Path(line)))
+        if line and not line.startswith("#"):
+            # Like `site`, resolve a relative line against the directory of the `.pth` file
+            # (joining leaves an absolute line untouched), and only then against the current directory.
+            for directory in (os.path.join(path.parent, line), line):  # noqa: PTH118
+                if os.path.exists(directory):  # noqa: PTH110
+                    directories.append(_SP(Path(directory)))
+                    break
     return directories
 
 
